@@ -417,7 +417,7 @@ def explore(rng, tier, stats):
     stats.programs += 1
     violations = []
     # pass 1: generation pass (for rejections this *is* the faulted execution)
-    res = execute(world, prog.source, None, want_lines=(prog.fault_kind == "interrupt.line"))
+    res = execute(world, prog.source, None, want_lines=True)
     ops = res.ops
     label = prog.fault_kind if prog.fault_kind != "interrupt.line" else "none"
     if prog.fault_kind != "interrupt.line":
@@ -440,7 +440,12 @@ def explore(rng, tier, stats):
         stats.probes[f"rejected_in_{tk}"] += 1
         if tk == "transfer" and res.liquid_records > 0:
             stats.probes["transfer_rejected_after_emitting"] += 1
-    if prog.fault_kind == "interrupt.line" and not res.failed and res.terminal_lines > 0:
+    # Interrupts are injected into valid terminal operations *and* into terminal operations that end in a
+    # rejection (an emit-then-roll-back pattern is only visible when the abort arrives between the emit and
+    # the refusal): the doomed operation is cut short at a line before its own exception.
+    doomed = prog.fault_kind != "interrupt.line" and res.failed and len(ops) == prog.n_prefix + 1
+    if ((prog.fault_kind == "interrupt.line" and not res.failed) or doomed) and res.terminal_lines > 0 \
+            and not res.violations:
         n = res.terminal_lines
         stats.lines += n
         if tier == "thorough":
@@ -453,13 +458,13 @@ def explore(rng, tier, stats):
                 ks = list(range(1 + off, n + 1, stride))
                 stats.probes["terminal_op_strided"] += 1
         else:
-            m = min(n, 16)
+            m = min(n, 16 if not doomed else 8)
             ks = sorted(rng.sample(range(1, n + 1), m))
         for k in ks:
             fault = {"kind": "interrupt.line", "k": k, "exc": prog.exc_kind}
             r2 = execute(world, list_source(ops), fault)
             stats.crash_points += 1
-            account(stats, world, r2, "interrupt.line", fault)
+            account(stats, world, r2, "interrupt.line" if not doomed else "interrupt.line+doomed", fault)
             if r2.fired_at:
                 stats.probes["interrupt_in_" + r2.fired_at[0].replace("/", ".")] += 1
             if r2.violations:
